@@ -539,7 +539,11 @@ X02V(r) == FirstFail(<<
 >>)
 
 \* X03: the model's reject reason and the message of the exception the code raised
-X03V(r) == FirstFail(<<
+X03V(r) ==
+  IF r.reason = "rnm-string" THEN FirstFail(<< <<"regex-error-message-carries-string-and-pattern-verbatim", r.cls = "RegexNotMatchError" /\ r.msg = RnmString(r.s, r.rx)>> >>)
+  ELSE IF r.reason = "rnm-regex-only" THEN FirstFail(<< <<"regex-error-message-carries-the-pattern-verbatim", r.cls = "RegexNotMatchError" /\ r.msg = RnmRegexOnly(r.rx)>> >>)
+  ELSE IF r.reason = "rnm-collection" THEN FirstFail(<< <<"regex-error-message-counts-the-strings", r.cls = "RegexNotMatchError" /\ r.msg = RnmCollection(r.n, r.rx)>> >>)
+  ELSE FirstFail(<<
   <<"exception-class", r.cls = r.wantcls>>,
   <<"message-of-the-reject-branch", r.wantcls = "chart" \/ MessageMatches(r.reason, r.msg)>>
 >>)
